@@ -2,37 +2,8 @@
    last removed (invariant RecInv on the text writeRecordPlaylist maintains by bytes.Index / TrimSuffix surgery). *)
 From Coq Require Import ZArith Bool List Lia.
 From Lal Require Import Common.LBytes Hls.HlsFloat Hls.HlsFs Hls.HlsPlaylist Hls.HlsMuxer Hls.HlsConsistent
-  Hls.HlsFsProofs Hls.HlsFloatProofs Hls.HlsTextProofs Hls.HlsInv Hls.HlsInvProofs Hls.HlsRunProofs Hls.HlsFinalProofs.
+  Hls.HlsFsProofs Hls.HlsFloatProofs Hls.HlsTextProofs Hls.HlsInv Hls.HlsInvProofs Hls.HlsRunProofs Hls.HlsTraceProofs Hls.HlsFinalProofs.
 Open Scope Z_scope.
-
-Lemma rnd53_nonneg n d : 0 <= n -> 0 < d -> 0 <= f_num (rnd53 n d).
-Proof.
-  intros Hn Hd. unfold rnd53. destruct (n <=? 0); [cbn; lia|].
-  set (s0 := Z.log2 n - Z.log2 d - 52).
-  assert (Hsc : forall s, 0 <= fst (scale_frac n d s) /\ 0 < snd (scale_frac n d s)).
-  { intros s. unfold scale_frac. destruct (0 <=? s) eqn:E; cbn.
-    - apply Z.leb_le in E. split; [lia|]. apply Z.mul_pos_pos; [lia|]. apply Z.pow_pos_nonneg; lia.
-    - apply Z.leb_gt in E. split; [|lia]. apply Z.mul_nonneg_nonneg; [lia|]. apply Z.pow_nonneg. lia. }
-  destruct (scale_frac n d s0) as [n1 d1].
-  set (s := if n1 / d1 <? 2 ^ 52 then s0 - 1 else s0).
-  specialize (Hsc s). destruct (scale_frac n d s) as [n2 d2]. cbn [fst snd] in Hsc.
-  assert (Hq : 0 <= rne (n2 / d2) (n2 mod d2) d2).
-  { pose proof (rne_ge (n2 / d2) (n2 mod d2) d2). assert (0 <= n2 / d2) by (apply Z.div_pos; lia). lia. }
-  unfold f_num. cbn [fm fe]. destruct (0 <=? s); [|exact Hq].
-  apply Z.mul_nonneg_nonneg; [exact Hq|]. apply Z.pow_nonneg. lia.
-Qed.
-
-Lemma calc_target_nonneg x : 0 <= f_num x -> 0 <= calc_target x.
-Proof.
-  intros Hx. unfold calc_target. apply Z.div_pos; [|lia].
-  assert (0 <= f_round (f_mul x (f_of_Z 1000))); [|lia].
-  unfold f_round. pose proof (f_den_pos (f_mul x (f_of_Z 1000))).
-  apply Z.div_pos; [|lia].
-  assert (0 <= f_num (f_mul x (f_of_Z 1000))); [|lia].
-  unfold f_mul. apply rnd53_nonneg.
-  - apply Z.mul_nonneg_nonneg; [exact Hx|]. unfold f_of_Z. apply rnd53_nonneg; lia.
-  - apply Z.mul_pos_pos; apply f_den_pos.
-Qed.
 
 Definition rhead (T : Z) (rest : bytes) : bytes := (rec_pre ++ target_tag ++ dec T ++ 10%N :: rest)%list.
 Definition rmid : bytes :=
